@@ -271,9 +271,9 @@ def peel_keep_clone(e):
 
 def bind(pat, v, st):
     k = pat.get("k")
-    if k == "Binding":
+    if k == "PBinding":
         st.env[pat["name"]] = v
-    elif k == "Tuple" and v and v[0] == "tuple":
+    elif k == "PTuple" and v and v[0] == "tuple":
         for p, x in zip(pat["pats"], v[1]):
             bind(p, x, st)
 
@@ -281,7 +281,7 @@ def bind(pat, v, st):
 def refine(pat, v, st, positive):
     """`if let Ok(x) = tok.as_reg()`: constrain the token kind, bind x."""
     pv = pat_variants(pat)
-    if pat.get("k") == "TupleStruct" and short(pat.get("res")) == "Ok" and v[0] == "as":
+    if pat.get("k") == "PTupleStruct" and short(pat.get("res")) == "Ok" and v[0] == "as":
         kind, tv = v[1], v[2]
         if tv[0] != "tok":
             raise Unextractable("as_* on a non-token")
@@ -290,7 +290,7 @@ def refine(pat, v, st, positive):
             return False
         st.toks[i] = kind
         inner = pat["pats"][0] if pat["pats"] else None
-        if inner is not None and inner.get("k") == "Binding":
+        if inner is not None and inner.get("k") == "PBinding":
             st.env[inner["name"]] = tv
         return True
     raise Unextractable(f"unsupported if-let pattern {pv} at {pat.get('sp')}")
